@@ -29,6 +29,18 @@ CHECKS = {
  "C11": dict(engine="stream", design_ref="DESIGN.md 6 C11, 7",
    text="The Lag invariant (a chunk is out before more than two further chunks are in) is model-checked on both loops; recorded traces carry per event the peak live heap of the code under test and the consumed/covered byte counts and are validated against E4/E5/D7/D8 on inputs from 0 B to tens of MiB (thorough: 1 GB) that are never held in memory.",
    note="Peak memory is a monitored field of the trace with a generous constant bound (8*CS + 1 MiB, + 34 MiB while scrypt runs): TLC does not derive memory use from the model. Only heap allocations are observed."),
+ "C05": dict(engine="noise", design_ref="DESIGN.md 6 C05",
+   text="TLC decides all 4608 combinations of {private key sealing, public key claimed incl. low-order, recipient addressed incl. low-order, ephemeral used / claimed incl. another message's and low-order, decrypting key, recipient_public argument, field spliced from another authentic message} on the token-level Noise X model over symbolic terms (NoiseAdv.tla) against OnlyAddressed / SenderAuthentic / NoNullKey / RespectsClass; every combination is built with the real key_encrypt and with the specification's terms, fed to the real key_decrypt, and the outcome validated against the declarative classification C05Contract by TLC (Trace_Noise); all 14 concrete low-order / non-canonical encodings are used.",
+   note="Symbolic (Dolev-Yao) algebra: DH commutes, low-order points give the zero secret, hashes/KDFs/AEAD are collision free. The CLI clause (name reported) is checked under C12."),
+ "C06": dict(engine="noise", design_ref="DESIGN.md 6 C06",
+   text="The file format exists only as TLA+ terms (WireFormat/NoiseX); a small evaluator interprets the primitive symbols with the repository's exported functions. Encoder: for TLC-enumerated read partitions and injected randomness the output of key_encrypt/pass_encrypt/the chunk loop equals the evaluated terms byte for byte (also for mismatched key pairs and noise_encrypt's handshake hash). Decoder: every legal chunking enumerated by TLC (Chunkings.tla) and odd production-size chunkings, built from the terms, decrypt to plaintext and sender. Frozen: /verif/golden (written once by the pinned tree) and the repository's golden files keep decrypting and parse under the terms. Counter nonces over the 64-bit range through the hook.",
+   note="A change inside a primitive that is consistent on both sides is visible only through the frozen corpus (and C18/C19). 'Earlier 1.x releases' are represented by the repository's own golden files only; no other old files exist in the sandbox."),
+ "C07": dict(engine="noise", design_ref="DESIGN.md 6 C07",
+   text="NonceOnce/NonceIsIndex are model-checked on EncLoop for every schedule; Fresh.tla enumerates every history of n operations (key encryption via library and CLI, password encryption, key generation, password change) with identical inputs; each is executed and every value the code drew is recovered by specification-directed opening and every AEAD seal logged with its key and nonce; TLC validates no value drawn twice, no (key, nonce) reused, chunk i at nonce i (Trace_Fresh).",
+   note="Freshness is judged by inequality of recovered 32-byte values within a history (2^-256 false-negative chance per pair); it does not assess the entropy source itself."),
+ "C08": dict(engine="noise", design_ref="DESIGN.md 6 C08",
+   text="NoIdentityInClear / ClearIndependentOfIdentity are checked by TLC on all NoiseAdv scenarios and the size formula on every EncLoop schedule; real outputs of library and CLI for pairs of encryptions differing only in identities are compared on the cleartext positions, against 132|36 + 32*records + plaintext, and searched for every encoding of both public keys and of long random keyring names (Trace_Noise, event 'clear').",
+   note="AEAD ciphertext is treated as opaque. Identity search covers raw, hex, base64 and keyring encodings only."),
 }
 
 NOT_YET = "check not built yet (work in progress, DESIGN.md section 12)"
@@ -58,6 +70,8 @@ def main():
     engines = [
         {"name": "stream", "path": "lib/checks_stream.py", "serves_properties": ["C01", "C02", "C03", "C04", "C10", "C11"],
          "kind_free_text": "EncLoop/DecLoop/AFile (TLC) -> behaviours -> scripted Read/Write replay on the real code -> Trace_Stream validation"},
+        {"name": "noise", "path": "lib/checks_noise.py", "serves_properties": ["C05", "C06", "C07", "C08"],
+         "kind_free_text": "NoiseX/NoiseAdv/WireFormat/Fresh/Chunkings (TLC) -> scenarios -> real key_encrypt/key_decrypt/CLI + term evaluator -> Trace_Noise / Trace_Fresh validation"},
     ]
     m = {"version": 1,
          "setup_cmd": "cd /verif/harness && CARGO_NET_OFFLINE=true cargo build --release --offline",
